@@ -72,6 +72,22 @@ pub fn predicate(id: &str, v: &Violation) -> bool {
                 && sig_bool(v, "at_rest") == Some(true)
                 && sig_bool(v, "speed_target_zero") == Some(true)
         }
+        // The backward pass re-times a slower alternative branch to "the latest departure that still makes
+        // the join", which can precede a departure at t ~ 0: negative scheduled times, only on nodes reached
+        // through an alternate link, bounded below by minus the trip time.
+        "C15-negative-time-sched-on-alternate-branch" => {
+            v.monitor == "est_time_net"
+                && v.clause == "scheduled times finite and non-negative"
+                && sig_s(v, "field") == Some("time_sched")
+                && sig_bool(v, "finite") == Some(true)
+                && (sig_bool(v, "on_alternate_branch") == Some(true)
+                    // ... or the root itself, pulled earlier through such a branch
+                    || (sig_bool(v, "is_root_node") == Some(true) && sig_bool(v, "graph_has_alternates") == Some(true)))
+                && match (sig_f(v, "value"), sig_f(v, "max_time_sched")) {
+                    (Some(x), Some(m)) => x < 0.0 && x >= -m.max(1.0),
+                    _ => false,
+                }
+        }
         _ => {
             let _ = (sig_bool(v, ""),);
             false
